@@ -16,10 +16,17 @@ Stale == {"absent", "junk", "long", "sol", "R"}       \* "long": other content, 
 \* all patterns / a configuration selecting one pattern / a configuration selecting none (no finding at all):
 \* reports "R", "R1" and the empty report "R0" -- which is still written
 Modes == {"full", "one", "none"}
-ReportOf(mode) == IF mode = "full" THEN "R" ELSE IF mode = "one" THEN "R1" ELSE "R0"
+\* how the run is told what to analyse: "flag" = --path (patterns, if restricted, from a --toml file elsewhere),
+\* "toml" = only --toml, the file (kept in ANOTHER directory than the working directory, except for "parent") names
+\* the directory and the patterns, "default" = no option at all, ./contracts of the working directory
+Vias == {"flag", "toml", "default"}
+\* the default directory exists only below "other", and without --toml every pattern is active
+Applicable(c, mode, via) == via = "default" => (c = "other" /\ mode = "full")
+\* the report is a function of the analysed tree and the selected patterns -- not of how they were named
+ReportOf(mode, via) == IF via = "default" THEN "RD" ELSE IF mode = "full" THEN "R" ELSE IF mode = "one" THEN "R1" ELSE "R0"
 
-\* what a run in working directory c does to the map of report files
-RunEffect(rep, c, mode) == [rep EXCEPT ![c] = ReportOf(mode)]
+\* what a run in working directory c does to the map of report files: nothing but the report of c
+RunEffect(rep, c, mode, via) == [rep EXCEPT ![c] = ReportOf(mode, via)]
 
 \* observation of one real run: which paths changed, and whether the report equals the clean one
 \* obs = [exit, changed (sequence of paths), report_is_clean, report_path]
